@@ -304,7 +304,8 @@ TimerSteps(S, t) ==
 CancellerSteps(S, t) ==
   LET T == TT(S, t)   X == XX(S, t) IN
   CASE T.sub = "ctx" -> Silent([SetX(S, t, CancelCtx(X, 1, "CtxCanceled", t, FALSE)) EXCEPT !.th[t].sub = "ret"])
-    [] T.sub = "deadline" -> Silent([SetX(S, t, CancelCtx(X, 1, "CtxDeadline", t, FALSE)) EXCEPT !.th[t].sub = "ret"])
+    \* the caller's context reaches its deadline: the runtime's timer cancels it (nothing of this is visible to the harness)
+    [] T.sub = "deadline" -> Silent(End(SetX(S, t, CancelCtx(X, 1, "CtxDeadline", t, FALSE)), t))
     \* ExecutionResult.Cancel: execution.Cancel(ErrExecutionCanceled result) under the mutex ...
     [] T.sub = "async1" ->
          LET S1 == [SetX(S, t, [CancelExec(X, 2, Failure(Leaf("ExecCanceled")), t) EXCEPT !.cancel1 = TRUE]) EXCEPT !.th[t].sub = "async2"] IN
@@ -383,6 +384,14 @@ Steps(S, t) ==
            [] T.sub = "BhTake" ->
                 IF S.pol[id] < cfg.bhmax[id] THEN Silent([S EXCEPT !.pol[id] = @ + 1, !.th[t].sub = "took"])
                 ELSE Silent([S EXCEPT !.th[t].sub = "full"])
+           \* circuitBreaker.Open / HalfOpen / Close (under the breaker mutex): transitionTo - nothing happens when already there
+           [] T.sub \in {"CbOpen", "CbHalfOpen", "CbClose"} ->
+                LET to == CASE T.sub = "CbOpen" -> "open" [] T.sub = "CbHalfOpen" -> "halfopen" [] OTHER -> "closed"
+                    p == Stack[CHOOSE j \in 1..N : Stack[j].k = "cb" /\ Stack[j].id = id]
+                    r == BO(p.cfg)!Trans(S.pol[id], to, now) IN
+                One([S EXCEPT !.pol[id] = r.b, !.th[t].sub = "cbret"],
+                    IF r.ev = <<>> THEN NoLab ELSE [ev |-> "StateChanged", id |-> id, old |-> r.ev[1].old, new |-> r.ev[1].new])
+           [] T.sub = "cbret" -> One(End(S, t), [ev |-> "CbRet", id |-> id])
            [] T.sub = "acqok" -> One(End(S, t), [ev |-> "BhAcquired", w |-> T.w.kk, ok |-> TRUE])
            [] T.sub = "took" -> One(End(S, t), [ev |-> "BhTake", id |-> id, ok |-> TRUE])
            [] T.sub = "full" -> One(End(S, t), [ev |-> "BhTake", id |-> id, ok |-> FALSE]))
@@ -420,6 +429,7 @@ FreshExec(e) ==
    rs |-> [j \in 1..N |-> [failed |-> 0, exceeded |-> FALSE]], final |-> NilPR, returned |-> FALSE, async |-> e.async, cancel1 |-> FALSE,
    stored |-> FALSE, doneflag |-> FALSE, closed |-> FALSE, callobj |-> <<>>, spurious |-> 0]
 
+DlOf(e) == IF "dl" \in DOMAIN e THEN e.dl ELSE -1
 \* one environment action (performed by the harness' controller at its scripted instant)
 EnvSteps(S) ==
   IF envi > Len(cfg.env) THEN {}
@@ -428,9 +438,15 @@ EnvSteps(S) ==
   ELSE CASE e.what = "Start" ->
               LET X == FreshExec(e)
                   root == IF e.async THEN 2 ELSE 1
-                  m == [NewThread(e.x, "main", "down", 1, root, 0, 0, 0, NoWait) EXCEPT !.mode = IF N = 0 THEN "down" ELSE "down"] IN
+                  m == [NewThread(e.x, "main", "down", 1, root, 0, 0, 0, NoWait) EXCEPT !.mode = IF N = 0 THEN "down" ELSE "down"]
+                  \* e.dl >= 0: the caller's context carries a deadline at instant e.dl - a timer of the runtime, set when the context
+                  \* is made, cancels it (nothing the harness does marks its firing); a deadline already reached: cancelled from the start
+                  tm == [NewThread(e.x, "canc", "wait", 0, 0, 0, 0, 0, [k |-> "csleep", until |-> DlOf(e), coop |-> FALSE, kk |-> 0]) EXCEPT !.sub = "deadline"]
+                  ths == IF DlOf(e) > now THEN <<m, tm>> ELSE <<m>>
+                  X1 == IF e.id = "precanceled" THEN CancelCtx(X, 1, "CtxCanceled", 0, FALSE)
+                        ELSE IF DlOf(e) >= 0 /\ DlOf(e) <= now THEN CancelCtx(X, 1, "CtxDeadline", 0, FALSE) ELSE X IN
               \* (e.id = "precanceled": the caller's context is already done when the execution starts)
-              One([S EXCEPT !.xs[e.x] = IF e.id = "precanceled" THEN CancelCtx(X, 1, "CtxCanceled", 0, FALSE) ELSE X, !.th = Append(@, m)], [ev |-> "Start", x |-> e.x])
+              One([S EXCEPT !.xs[e.x] = X1, !.th = @ \o ths], [ev |-> "Start", x |-> e.x])
          [] e.what \in {"CtxCancel", "CtxDeadline", "AsyncCancel"} ->
               LET c == [NewThread(e.x, "canc", "canc", 0, 0, 0, 0, IF e.what = "AsyncCancel" THEN e.gap ELSE 0, NoWait) EXCEPT
                            !.sub = CASE e.what = "CtxCancel" -> "ctx" [] e.what = "CtxDeadline" -> "deadline" [] OTHER -> "async1"] IN
@@ -444,6 +460,10 @@ EnvSteps(S) ==
          [] e.what = "BhAcqCancel" ->
               One([S EXCEPT !.acqc = @ \cup {e.x}], [ev |-> "BhAcqCancel", w |-> e.x])
          [] e.what \in {"BhTake", "BhRelease"} ->
+              LET c == [NewThread(1, "ctl", "ctl", 0, 0, 0, 0, 0, NoWait) EXCEPT !.sub = e.what, !.w = [NoWait EXCEPT !.k = e.id]] IN
+              One([S EXCEPT !.th = Append(@, c)], [ev |-> e.what \o "Call", id |-> e.id])
+         \* standalone circuit breaker API from the controller (Open / HalfOpen / Close): call visible, the transition a step of a helper
+         [] e.what \in {"CbOpen", "CbHalfOpen", "CbClose"} ->
               LET c == [NewThread(1, "ctl", "ctl", 0, 0, 0, 0, 0, NoWait) EXCEPT !.sub = e.what, !.w = [NoWait EXCEPT !.k = e.id]] IN
               One([S EXCEPT !.th = Append(@, c)], [ev |-> e.what \o "Call", id |-> e.id])
          [] e.what = "Probe" -> One(S, [ev |-> "Probe", used |-> [id \in DOMAIN S.pol |-> IF id \in DOMAIN cfg.bhmax THEN S.pol[id] ELSE -1]])
